@@ -14,10 +14,18 @@ TITLE = ("C02: every wire read is preceded by tests of both the expected and the
 OMIT = ["Null", "Opt", "Reserved"]
 
 
-def omission_sets(fn_hir):
-    """sets of TypeInner constructors singled out by a match whose variant arms mention only null/reserved/opt"""
+def omission_sets(fn_hir, c=None):
+    """sets of TypeInner constructors singled out by a match whose variant arms mention only null/reserved/opt
+    (a predicate factored out into a small local helper is looked into once per call site)"""
     out = []
-    for m in nodes(fn_hir["body"], "match"):
+    ms = list(nodes(fn_hir["body"], "match"))
+    if c is not None:
+        from shared import helper_bodies
+        for n in walk(fn_hir["body"]):
+            if n.get("k") in ("call", "mcall") and callee(n) in c.hir and callee(n) != fn_hir["key"]:
+                for hb in helper_bodies(c, {"k": "semi", "e": n}):
+                    ms.extend(nodes(hb, "match"))
+    for m in ms:
         hs = []
         other = False
         def heads(p):
@@ -59,7 +67,7 @@ def run(chk, facts, tier, only=None):
         ]
         for name, h, floor in sites:
             chk.analysed(h["key"])
-            sets = omission_sets(h)
+            sets = omission_sets(h, c)
             chk.expect(len(sets) >= floor and all(s == OMIT for s in sets), f"omission-set:{name.split(' ')[0]}",
                        f"{name}: a missing value is tolerated for exactly opt, null and reserved (spec: `null <: <datatype'>`); "
                        f"this site singles out {sets} (expected {floor} set(s) equal to {OMIT})",
